@@ -36,7 +36,7 @@ shutil.copy(os.path.join(out, demo), os.path.join(d, demo))
 meta = json.load(open(os.path.join(out, "meta%s.json" % k)))
 checks = {}
 for p in props.split(","):
-    rc, o = sh("python3 %s/tools/try_seed.py %s %s --skip-tests" % (V, os.path.join(d, "patch.diff"), p))
+    rc, o = sh("python3 %s/tools/try_seed.py %s %s --skip-tests --private" % (V, os.path.join(d, "patch.diff"), p))
     line = [l for l in o.splitlines() if l.startswith(p + " rc=")]
     checks[p] = line[0] if line else o[-300:]
     print(checks[p][:200])
